@@ -187,7 +187,7 @@ func TestVerifC05Nominate(t *testing.T) {
 	ctx := context.TODO()
 
 	kit.Run(t, kit.Config{Property: "C05", Unit: "nominate", Quick: 6000, Thorough: 200000,
-		Rule: "2-5 Available reservations (owner specification of 1-3 entries from a pool of label / object / controller selectors, allocate-once default / true / false, default / Aligned / Restricted policy, group label, 8% unschedulable) on 3 nodes that never limit, 5-9 pods (labels, owner references, namespaces; 44% with a reservation affinity by selector, by name or by terms; 6% ignoring reservations), 8-20 steps: sequential scheduling cycles through the real plugin entry points ending in bind or Unreserve, deletion of assigned pods, completion of reservations, new reservations, preemption dry runs (BeforePreFilter of a preemptor with a reservation affinity requesting reserved-1 / reserved / reserved+1 unit / far above of a Restricted reservation, RemovePod extension for a victim that is only nominated to the reservation and requests more than it has allocated, Filter); distinct = (#reservations, affinity kind, #matched on the node, allocate-once reservation with a pod among the matched, PreScore used, ReservationNominate used, outcome, policy and allocate-once of the nominated reservation); non-trivial = a cycle whose matched set contained an allocate-once reservation that already had an assigned pod"},
+		Rule: "2-5 Available reservations (owner specification of 1-3 entries from a pool of label / object / controller selectors, allocate-once default / true / false, default / Aligned / Restricted policy, group label, 8% unschedulable) on 3 nodes that never limit, 5-9 pods (labels, owner references, namespaces; 44% with a reservation affinity by selector, by name or by terms; 6% ignoring reservations), 8-20 steps: sequential scheduling cycles through the real plugin entry points ending in bind or Unreserve, deletion of assigned pods, completion of reservations, new reservations, edits of the restricted-options annotation of live Restricted reservations (incl. disjoint / mis-cased / duplicate lists), preemption dry runs (BeforePreFilter of a preemptor with a reservation affinity requesting reserved-1 / reserved / reserved+1 unit / far above of a Restricted reservation, RemovePod extension for a victim that is only nominated to the reservation and requests more than it has allocated, Filter); distinct = (#reservations, affinity kind, #matched on the node, allocate-once reservation with a pod among the matched, PreScore used, ReservationNominate used, outcome, policy and allocate-once of the nominated reservation); non-trivial = a cycle whose matched set contained an allocate-once reservation that already had an assigned pod"},
 		func(c *kit.Case) {
 			r := c.R
 			cache := newReservationCache(nil)
@@ -290,6 +290,9 @@ func TestVerifC05Nominate(t *testing.T) {
 							sum.Add(reqOf(o)[n])
 						}
 						c.Count("restricted_admissions_checked", 1)
+						if c05OptionsClass(res) == "disjoint" {
+							c.Count("restricted_admissions_checked_options_disjoint", 1)
+						}
 						if sum.Cmp(reserved[n]) > 0 {
 							c.Fail("C05/fit/admitted-over-reserved", "%s: pod %s(%s) requesting %s was let into restricted reservation %s(%s) reserving %s although the pods already assigned (%v) plus the request need %s of %s",
 								where, np.pod.Name, np.pod.UID, c05RL(np.req), res.Name, res.UID, c05RL(reserved), others, sum.String(), n)
@@ -497,9 +500,29 @@ func TestVerifC05Nominate(t *testing.T) {
 			sawTakenOnce := false
 			nsteps := r.Range(8, 20)
 			for step := 0; step < nsteps; step++ {
-				switch r.Weighted(66, 13, 6, 7, 8) {
+				switch r.Weighted(62, 12, 6, 7, 8, 5) {
 				case 4:
 					dryRun(step)
+					continue
+				case 5: // the restricted-options annotation of a live Restricted reservation is edited
+					var cand []*c05NRsv
+					for _, x := range rsvs {
+						if !x.gone && x.res.Spec.AllocatePolicy == schedulingv1alpha1.ReservationAllocatePolicyRestricted {
+							cand = append(cand, x)
+						}
+					}
+					if len(cand) == 0 {
+						continue
+					}
+					x := kit.Pick(r, cand)
+					x.res = x.res.DeepCopy()
+					cl := c05GenOptions(r, x.res)
+					c.Op("step %d informer: reservation %s(%s) restricted options -> %q (%s)", step, x.res.Name, x.res.UID, x.res.Annotations[apiext.AnnotationReservationRestrictedOptions], cl)
+					cache.updateReservation(x.res)
+					c.Count("op_reservation_options_updated", 1)
+					if len(liveAssigned(x.res.UID, "")) > 0 {
+						c.Count("op_reservation_options_updated_with_assigned_"+cl, 1)
+					}
 					continue
 				case 1: // an assigned pod is deleted
 					var cand []*c05NPod
